@@ -177,9 +177,9 @@ def check_gauge(case, rec):
 
 @st.composite
 def gen_gauge(draw, tier):
-    L = draw(st.sampled_from([4, 5, 6] if tier == 'quick' else [4, 5, 6, 7]))
+    L = draw(st.sampled_from([7, 6, 5, 4, 8] if tier == 'quick' else [7, 8, 9, 6, 5, 4]))
     return {'L': L, 'i': draw(st.sampled_from(list(range(L - 1)))), 'struct': draw(st.sampled_from(['complex', 'real', 'masked', 'symmetric'])),
-            'seed': draw(st.integers(0, 10**6)), 'ukind': draw(st.sampled_from(['haar', 'haar', 'rotation', 'permutation', 'phases', 'identity'])),
+            'seed': draw(st.integers(0, 10**6)), 'ukind': draw(st.sampled_from(['haar', 'haar', 'haar', 'phases', 'rotation', 'permutation', 'identity'])),
             'useed': draw(st.integers(0, 10**6))}
 
 
